@@ -1,0 +1,133 @@
+//go:build verif
+
+package serverinterceptors
+
+import (
+	"context"
+	"encoding/json"
+	"testing"
+
+	"github.com/alicebob/miniredis/v2"
+	"github.com/gotid/god/internal/verifdrv"
+	"github.com/gotid/god/lib/store/redis"
+	"github.com/gotid/god/rpc/internal/auth"
+	"google.golang.org/grpc"
+	"google.golang.org/grpc/codes"
+	"google.golang.org/grpc/metadata"
+	"google.golang.org/grpc/status"
+)
+
+// C04 through the interceptors: one Authenticator behind UnaryAuthorizeInterceptor and
+// StreamAuthorizeInterceptor, calls carry a non-nil server info with a FullMethod name.
+
+type verifC04Op struct {
+	Op     string   `json:"op"` // set | del | down | up | call
+	App    string   `json:"app"`
+	Token  string   `json:"token"`
+	Mode   string   `json:"mode"`   // call: unary | stream
+	Method string   `json:"method"` // call: FullMethod
+	NoMd   bool     `json:"nomd"`
+	Apps   []string `json:"apps"`
+	Tokens []string `json:"tokens"`
+}
+
+type verifC04Case struct {
+	Strict bool         `json:"strict"`
+	Ops    []verifC04Op `json:"ops"`
+}
+
+type verifC04Stream struct {
+	grpc.ServerStream
+	ctx context.Context
+}
+
+func (s verifC04Stream) Context() context.Context { return s.ctx }
+
+func verifC04Code(err error) int {
+	if err == nil {
+		return int(codes.OK)
+	}
+	if st, ok := status.FromError(err); ok {
+		return int(st.Code())
+	}
+	return -1
+}
+
+func TestVerifDriverC04(t *testing.T) {
+	verifdrv.Run(t, func(raw json.RawMessage) any {
+		var c verifC04Case
+		if err := json.Unmarshal(raw, &c); err != nil {
+			return map[string]any{"error": err.Error()}
+		}
+		mr, err := miniredis.Run()
+		if err != nil {
+			return map[string]any{"error": err.Error()}
+		}
+		up := true
+		defer func() {
+			if up {
+				mr.Close()
+			}
+		}()
+		a, err := auth.NewAuthenticator(redis.New(mr.Addr()), "apps", c.Strict)
+		if err != nil {
+			return map[string]any{"error": err.Error()}
+		}
+		unary := UnaryAuthorizeInterceptor(a)
+		stream := StreamAuthorizeInterceptor(a)
+		type row struct {
+			Code int  `json:"code"`
+			Ran  bool `json:"ran"`
+		}
+		rows := []row{}
+		for _, op := range c.Ops {
+			switch op.Op {
+			case "set":
+				mr.HSet("apps", op.App, op.Token)
+			case "del":
+				mr.HDel("apps", op.App)
+			case "down":
+				if up {
+					mr.Close()
+					up = false
+				}
+			case "up":
+				if !up {
+					if err := mr.Restart(); err != nil {
+						return map[string]any{"error": "restart: " + err.Error()}
+					}
+					up = true
+				}
+			case "call":
+				ctx := context.Background()
+				if !op.NoMd {
+					md := metadata.MD{}
+					if op.Apps != nil {
+						md["app"] = op.Apps
+					}
+					if op.Tokens != nil {
+						md["token"] = op.Tokens
+					}
+					ctx = metadata.NewIncomingContext(ctx, md)
+				}
+				ran := false
+				var err error
+				if op.Mode == "stream" {
+					err = stream(nil, verifC04Stream{ctx: ctx}, &grpc.StreamServerInfo{FullMethod: op.Method, IsServerStream: true},
+						func(srv interface{}, ss grpc.ServerStream) error {
+							ran = true
+							return nil
+						})
+				} else {
+					_, err = unary(ctx, "req", &grpc.UnaryServerInfo{FullMethod: op.Method},
+						func(ctx context.Context, req interface{}) (interface{}, error) {
+							ran = true
+							return "resp", nil
+						})
+				}
+				rows = append(rows, row{Code: verifC04Code(err), Ran: ran})
+			}
+		}
+		return map[string]any{"rows": rows}
+	})
+}
